@@ -196,6 +196,10 @@ class Report(object):
                                              "samples": []})
             p["evaluations"] += n
             p["distinct_nontrivial"] += nt
+            for hk, hv in hist.items():
+                if hk.startswith("fail:"):
+                    f = p.setdefault("fail", {})
+                    f[hk] = f.get(hk, 0) + hv
             for s in samples:
                 if len(p["samples"]) < 2:
                     p["samples"].append(s)
@@ -559,6 +563,33 @@ def finish(ctx, report, level, replay_fn=None):
             known_hit.setdefault(key, []).append(v)
         else:
             fresh.append(v)
+    # population guard: a known finding is a SET of failing inputs; for parts
+    # whose input space does not depend on the seed the number of failing
+    # inputs per class was recorded on the pinned tree
+    # (known_findings.json "population"); a different number means that the
+    # set changed - other inputs fail now - which the file does not list
+    for key, k in active.items():
+        pop = (k.get("population") or {}).get(ctx.tier) or {}
+        for part, expected in sorted(pop.items()):
+            if part not in report.parts:
+                continue
+            got = (report.parts[part].get("fail") or {}).get(
+                "fail:" + key[1], 0)
+            if got != expected:
+                ex = [v for v in known_hit.get(key, [])][:1]
+                fresh.append({
+                    "check": key[0],
+                    "cls": key[1] + ":population-changed",
+                    "case": {"part": part, "class": key[1],
+                             "failing_inputs_recorded": expected,
+                             "failing_inputs_now": got,
+                             "an_input_failing_now": jsonable(ex[0]["case"])
+                             if ex else None},
+                    "expected": "%d failing inputs of this class in part %s "
+                                "(the recorded known finding)" % (expected, part),
+                    "observed": "%d failing inputs" % got,
+                    "no_confirm": True,
+                })
     # choose the violations to report (a few per cause class), and re-execute
     # each of them from its replay record before printing it
     per_cls = collections.Counter()
@@ -571,7 +602,7 @@ def finish(ctx, report, level, replay_fn=None):
         chosen.append(v)
     confirmed = []
     for v in chosen:
-        if replay_fn is not None:
+        if replay_fn is not None and not v.get("no_confirm"):
             case = unjson(jsonable(v["case"]))
             if v["check"] in ("mixed", "shard-exception"):
                 again = None             # only meaningful as a whole sequence
